@@ -396,6 +396,17 @@ class GateMonitor(WireTracker):
                 how = "after-other-traffic" if st["traffic"] else "silent"
                 vs.append((f"ce-timeout:{s.kind}:not-closed-at-the-first-timer-check-after-the-deadline:{how}",
                            f"socket {sid} established at {st['t0']}, timer check at {st['must_close'][0]} with timeout {st['must_close'][1]}, no CE message yet, still open"))
+            # whatever the node's own timer checks did or did not do: it wakes up at least every wake-up interval, so a connection without
+            # its CER/CEA must be gone one interval (+ 2 s of rounding slack) after the deadline
+            if st["t0"] is not None and st["ce_in"] is None and not st["env_closed"] and not s.fs.closed and not stopping \
+                    and not st.get("reported_timeout") and not (s.fs.connecting and not s.fs.conn_done):
+                key = "cea_timeout" if s.kind == "dialled" else "cer_timeout"
+                limit = self.eff_timeout(s, key) + getattr(node, "wakeup_interval", 6) + 2
+                if nw.world.now - st["t0"] > limit:
+                    st["reported_timeout"] = True
+                    how = "after-other-traffic" if st["traffic"] else "silent"
+                    vs.append((f"ce-timeout:{s.kind}:still-open-a-wake-up-interval-after-the-deadline:{how}",
+                               f"socket {sid} established at {st['t0']}, now {nw.world.now}, timeout {self.eff_timeout(s, key)}, wake-up interval {getattr(node, 'wakeup_interval', 6)}"))
             ready = conn is not None and conn.state in PEER_READY_STATES
             if ready and not st["ce_ok"] and not st.get("reported_ready"):
                 st["reported_ready"] = True
@@ -409,6 +420,14 @@ class GateMonitor(WireTracker):
                 st["ready_checked"] = True
                 if not ready and not s.fs.closed and not st["env_closed"]:
                     vs.append(("gate:outbound:not-ready-after-CEA-2001", f"socket {sid}: state {conn.state if conn else None}"))
+            if s.kind == "accepted" and st["ce_in"] is not None and not st["cea_seen"] and not st.get("cea_absence_reported") \
+                    and not st["env_closed"] and not s.fs.send_blocked and not stopping \
+                    and st["t0"] is not None and st["ce_in"][2] - st["t0"] <= self.eff_timeout(s, "cer_timeout"):
+                # (a CER arriving after its deadline, but before the node noticed, may be answered or may find the connection closed)
+                # "an inbound CER is answered by a CEA": owed at the first quiescent point after the CER was delivered
+                st["cea_absence_reported"] = True
+                vs.append((f"gate:inbound:CER-not-answered-by-a-CEA:{st['ce_in'][0]}", f"socket {sid}: CER ({st['ce_in'][0]}) delivered at {st['ce_in'][2]}, "
+                           f"no CEA written at quiescence; socket closed={s.fs.closed}, state {conn.state if conn else None}"))
             if st.get("expect_closed") and not st.get("closed_checked"):
                 st["closed_checked"] = True
                 if not s.fs.closed:
@@ -842,6 +861,17 @@ class WatchdogMonitor(WireTracker):
                     vs.append(("watchdog:not-closed-after-the-DWA-timeout", f"socket {sid}: DWR at {since}, check at {t}, timeout {tmo}, still open"))
                 elif peer is not None and peer.disconnect_reason != DISCONNECT_REASON_DWA_TIMEOUT:
                     vs.append((f"watchdog:closed-with-reason-{peer.disconnect_reason}-instead-of-watchdog-timeout", f"socket {sid}"))
+            if st["ready"] and not st["leaving"] and not s.fs.closed and not st["env_closed"] and not st["closed"] and not getattr(nw.node, "_stopping", False) \
+                    and not st.get("ambiguous"):
+                # independent of the node's own timer checks: one wake-up interval (+ 2 s slack) after the respective deadline
+                now = nw.world.now
+                wk = getattr(nw.node, "wakeup_interval", 6) + 2
+                if st["await"] is None and st["rx"] is not None and now - st["rx"] > self.eff(s, "idle_timeout") + wk and not st.get("late_dwr"):
+                    st["late_dwr"] = True
+                    vs.append(("watchdog:no-DWR-a-wake-up-interval-after-the-idle-timeout", f"socket {sid}: last bytes at {st['rx']}, now {now}, idle timeout {self.eff(s, 'idle_timeout')}"))
+                if st["await"] is not None and st["dwa_at"] is None and now - st["await"] > self.eff(s, "dwa_timeout") + wk and not st.get("late_close"):
+                    st["late_close"] = True
+                    vs.append(("watchdog:not-closed-a-wake-up-interval-after-the-DWA-timeout", f"socket {sid}: DWR at {st['await']}, now {now}, timeout {self.eff(s, 'dwa_timeout')}"))
             if conn is not None and st["ready"] and not st["leaving"] and not s.fs.closed and not st.get("ambiguous"):
                 awaiting = st["await"] is not None and st["dwa_at"] is None
                 if awaiting and conn.state != 0x13:
@@ -1055,6 +1085,22 @@ class ReconnectMonitor(GroundTruth):
         for name, (t, tl) in list(due.items()):
             due.pop(name)
             vs.append(("reconnect:persistent-peer-not-redialled-after-reconnect-wait", f"peer {name}: lost at {tl}, reconnect check at {t}, no connect()"))
+        if not stopping:
+            now = nw.world.now
+            for pc in sc.cfg.get("peers", []):
+                name = pc["name"]
+                if not pc.get("persistent") or not pc.get("ips"):
+                    continue
+                lost = self.lost.get(name)
+                if lost is None or (lost[1] and not pc.get("always_reconnect")):
+                    continue
+                has = [s2 for s2, g2 in self.c.items() if g2["peer"] == name and self.open_for_node(g2) and (g2["kind"] == "dialled" or g2["identified"])]
+                limit = pc.get("reconnect_wait", 30) + getattr(node, "wakeup_interval", 6) + 2
+                if not has and now - lost[0] > limit and getattr(self, "late_reported", {}).get(name) != lost[0]:
+                    self.late_reported = getattr(self, "late_reported", {})
+                    self.late_reported[name] = lost[0]
+                    vs.append(("reconnect:persistent-peer-not-redialled-a-wake-up-interval-after-reconnect-wait",
+                               f"peer {name}: lost at {lost[0]}, now {now}, reconnect wait {pc.get('reconnect_wait', 30)}, wake-up interval {getattr(node, 'wakeup_interval', 6)}"))
         for sid, f in list(self.dpr_pending.items()):
             g = self.conn(sid)
             if self.live(g) and not g.get("reported_nodpa"):
